@@ -189,6 +189,41 @@ var families = []family{
 		fmt.Fprintf(&b, " fragment F%d on Node { id }", n)
 		return b.String()
 	}, 64, true},
+	{"exclusive-fragment-ladder", func(n int) string {
+		// two same-key fields under DIFFERENT object types (mutually exclusive
+		// parents); one of them spreads a ladder E0 -> E1a,E1b -> E2a,E2b ...:
+		// 2n+1 fragments, 2^n spread paths
+		var b strings.Builder
+		b.WriteString("{ start { ... on T0 { next { id } } ... on T1 { next { ...E0 } } } }")
+		b.WriteString(" fragment E0 on Node { id ...E1a ...E1b }")
+		for i := 1; i < n; i++ {
+			fmt.Fprintf(&b, " fragment E%da on Node { id ...E%da ...E%db }", i, i+1, i+1)
+			fmt.Fprintf(&b, " fragment E%db on Node { id ...E%da ...E%db }", i, i+1, i+1)
+		}
+		fmt.Fprintf(&b, " fragment E%da on Node { id } fragment E%db on Node { id }", n, n)
+		return b.String()
+	}, 64, true},
+	{"fragment-ladder", func(n int) string {
+		var b strings.Builder
+		b.WriteString("{ start { next { id } next { ...E0 } } }")
+		b.WriteString(" fragment E0 on Node { id ...E1a ...E1b }")
+		for i := 1; i < n; i++ {
+			fmt.Fprintf(&b, " fragment E%da on Node { id ...E%da ...E%db }", i, i+1, i+1)
+			fmt.Fprintf(&b, " fragment E%db on Node { id ...E%da ...E%db }", i, i+1, i+1)
+		}
+		fmt.Fprintf(&b, " fragment E%da on Node { id } fragment E%db on Node { id }", n, n)
+		return b.String()
+	}, 64, true},
+	{"repeated-key-fragment-chain", func(n int) string {
+		// the same response key twice per level, each occurrence spreading the next fragment
+		var b strings.Builder
+		b.WriteString("{ start { ...F0 } }")
+		for i := 0; i < n; i++ {
+			fmt.Fprintf(&b, " fragment F%d on Node { next { ...F%d } next { ...F%d } }", i, i+1, i+1)
+		}
+		fmt.Fprintf(&b, " fragment F%d on Node { id }", n)
+		return b.String()
+	}, 64, true},
 	{"same-fragment-n-sites", func(n int) string {
 		return "{ start { " + rep("...F ", n) + "next { " + rep("...F ", n) + "} } } fragment F on Node { id next { id } }"
 	}, 128, true},
